@@ -20,7 +20,10 @@ Inductive tfield :=
 | FHexRest                                 (* concatenate_remaining_identifiers + unhexlify *)
 | FB64Rest (styled_chunks : bool)          (* ... + b64decode; false: base64_chunk_size forced to 0 *)
 | FTxtRest                                 (* TXT-like strings *)
-| FAddr (v6 : bool).                       (* get_identifier + _as_ipv4_address / _as_ipv6_address *)
+| FAddr (v6 : bool)                        (* get_identifier + _as_ipv4_address / _as_ipv6_address *)
+| FHexTok                                  (* one token: hex, or "-" for the empty string (NSEC3PARAM salt) *)
+| FAlg                                     (* get_string + dns.dnssectypes.Algorithm.make; printed as a number *)
+| FTag.                                    (* CAA tag: get_string().encode(), alphanumeric *)
 
 Inductive tval :=
 | VInt (z : Z)
@@ -199,6 +202,39 @@ Definition ipv6_aton_b (b : list Z) : res (list Z) :=
 Definition ipv6_aton (t : list Z) : res (list Z) := do b <- utf8_encode t; ipv6_aton_b b.
 
 
+(* dns.dnssectypes.Algorithm: mnemonics (dns.enum.IntEnum.from_text: upper-cased name, else a decimal
+   number within 0..255) *)
+Definition alg_table : list (list Z * Z) :=
+  [([82;83;65;77;68;53], 1); ([68;72], 2); ([68;83;65], 3); ([69;67;67], 4); ([82;83;65;83;72;65;49], 5);
+   ([68;83;65;78;83;69;67;51;83;72;65;49], 6); ([82;83;65;83;72;65;49;78;83;69;67;51;83;72;65;49], 7);
+   ([82;83;65;83;72;65;50;53;54], 8); ([82;83;65;83;72;65;53;49;50], 10); ([69;67;67;71;79;83;84], 12);
+   ([69;67;68;83;65;80;50;53;54;83;72;65;50;53;54], 13); ([69;67;68;83;65;80;51;56;52;83;72;65;51;56;52], 14);
+   ([69;68;50;53;53;49;57], 15); ([69;68;52;52;56], 16); ([73;78;68;73;82;69;67;84], 252);
+   ([80;82;73;86;65;84;69;68;78;83], 253); ([80;82;73;86;65;84;69;79;73;68], 254)].
+
+Fixpoint assoc_text (k : list Z) (t : list (list Z * Z)) : option Z :=
+  match t with
+  | [] => None
+  | (n, v) :: r => if zlist_eqb k n then Some v else assoc_text k r
+  end.
+
+Definition upper_c (c : Z) : Z := if (97 <=? c) && (c <=? 122) then c - 32 else c.
+
+Definition alg_from_text (t : list Z) : res Z :=
+  let u := map upper_c t in
+  match assoc_text u alg_table with
+  | Some v => Ok v
+  | None =>
+      if negb (is_nil u) && forallb is_decimal u then
+        let v := dec_value u 0 in
+        if v >? 255 then Internal iValueError else Ok v
+      else Internal iValueError
+  end.
+
+(* bytes.isalnum() *)
+Definition is_alnum (c : Z) : bool :=
+  ((48 <=? c) && (c <=? 57)) || ((65 <=? c) && (c <=? 90)) || ((97 <=? c) && (c <=? 122)).
+
 (* ---------- printing ---------- *)
 (* Name.to_styled_text(style) with idna_codec None, omit_final_dot False *)
 Definition name_to_styled_text (st : style) (n : name) : res (list Z) :=
@@ -215,6 +251,9 @@ Definition print_field (st : style) (f : tfield) (v : tval) : res (list Z) :=
   | FB64Rest c, VBytes b => Ok (styled_base64ify b (if c then s_b64_chunk st else 0) (s_b64_sep st))
   | FTxtRest, VStrs l => Ok (txt_to_text_style (s_txt_utf8 st) l)
   | FAddr v6, VBytes b => if v6 then ipv6_ntoa b else ipv4_ntoa b
+  | FHexTok, VBytes b => Ok (if is_nil b then [45] else hexlify b)
+  | FAlg, VInt z => Ok (dec z)
+  | FTag, VBytes b => Ok (escapify b)
   | _, _ => Internal eBadCase
   end.
 
@@ -251,23 +290,23 @@ Definition rest_bytes (decode : list Z -> res (list Z)) (st : tstate) : res (tva
   do d <- decode b;
   Ok (VBytes d, snd hs).
 
+(* token-level part of cls.from_text: what is read (and converted) before the constructor runs *)
 Definition parse_field (c : pctx) (f : tfield) (st : tstate) : res (tval * tstate) :=
   match f with
   | FDec maxv => do vs <- get_uint maxv st 10; Ok (VInt (fst vs), snd vs)
   | FTtl => do vs <- get_ttl st; Ok (VInt (fst vs), snd vs)
-  | FQStr tokmax ctormax nonempty =>
-      do bs <- get_string_as_bytes st tokmax;
-      if negb (ctormax =? 0) && (zlen (fst bs) >? ctormax) then Internal iValueError
-      else if nonempty && is_nil (fst bs) then Lib eSyntax
-      else Ok (VBytes (fst bs), snd bs)
+  | FQStr tokmax _ _ => do bs <- get_string_as_bytes st tokmax; Ok (VBytes (fst bs), snd bs)
   | FName => do ns <- get_name c st; Ok (VName (fst ns), snd ns)
   | FHexRest => rest_bytes unhexlify st
   | FB64Rest _ => rest_bytes b64decode st
   | FTxtRest => do ss <- txt_from_text st; Ok (VStrs (fst ss), snd ss)
-  | FAddr v6 =>
-      do ts <- get_identifier st;
-      do b <- (if v6 then ipv6_aton (fst ts) else ipv4_aton (fst ts));
-      Ok (VBytes b, snd ts)
+  | FAddr _ => do ts <- get_identifier st; Ok (VBytes (fst ts), snd ts)
+  | FHexTok =>
+      do ts <- get_string st 0;
+      if zlist_eqb (fst ts) [45] then Ok (VBytes [], snd ts)
+      else do e <- utf8_encode (fst ts); do b <- unhexlify e; Ok (VBytes b, snd ts)
+  | FAlg => do ts <- get_string st 0; Ok (VBytes (fst ts), snd ts)
+  | FTag => do ts <- get_string st 0; do b <- utf8_encode (fst ts); Ok (VBytes b, snd ts)
   end.
 
 Fixpoint parse_fields (c : pctx) (fs : list tfield) (st : tstate) : res (list tval * tstate) :=
@@ -279,10 +318,37 @@ Fixpoint parse_fields (c : pctx) (fs : list tfield) (st : tstate) : res (list tv
       Ok (fst vs :: fst rs, snd rs)
   end.
 
+(* the constructor's part: conversions and range checks (ValueError -> SyntaxError by the wrapper);
+   it runs after all tokens of the record have been read and before the end-of-line check *)
+Definition ctor_field (f : tfield) (v : tval) : res tval :=
+  match f, v with
+  | FQStr _ ctormax nonempty, VBytes b =>
+      if negb (ctormax =? 0) && (zlen b >? ctormax) then Internal iValueError
+      else if nonempty && is_nil b then Lib eSyntax
+      else Ok v
+  | FAddr v6, VBytes t => do b <- (if v6 then ipv6_aton t else ipv4_aton t); Ok (VBytes b)
+  | FHexTok, VBytes b => if zlen b >? 255 then Internal iValueError else Ok v
+  | FAlg, VBytes t => do z <- alg_from_text t; Ok (VInt z)
+  | FTag, VBytes b =>
+      if (zlen b >? 255) || is_nil b || negb (forallb is_alnum b) then Internal iValueError else Ok v
+  | _, _ => Ok v
+  end.
+
+Fixpoint ctor_fields (fs : list tfield) (vs : list tval) : res (list tval) :=
+  match fs, vs with
+  | f :: fs', v :: vs' => do a <- ctor_field f v; do b <- ctor_fields fs' vs'; Ok (a :: b)
+  | _, _ => Ok []
+  end.
+
+Definition class_from_text (c : pctx) (fs : list tfield) (st : tstate) : res (list tval * tstate) :=
+  do rs <- parse_fields c fs st;
+  do vs <- ctor_fields fs (fst rs);
+  Ok (vs, snd rs).
+
 (* dns.rdata.from_text for a schema type; fw/tw = wire codec for the generic-syntax branch *)
 Definition record_from_text_gen (fw : list Z -> res (list tval)) (tw : list tval -> res (list Z))
            (c : pctx) (fs : list tfield) (text : list Z) : res (list tval) :=
-  rdata_from_text (parse_fields c fs) fw tw text.
+  rdata_from_text (class_from_text c fs) fw tw text.
 
 Definition record_from_text (c : pctx) (fs : list tfield) (text : list Z) : res (list tval) :=
   record_from_text_gen (fun _ => Internal iNotModelled) (fun _ => Internal iNotModelled) c fs text.
@@ -298,6 +364,9 @@ Definition schema_of (rdtype : Z) : option (list tfield) :=
   if rdtype =? 1 then Some [FAddr false]                                            (* A *)
   else if rdtype =? 28 then Some [FAddr true]                                       (* AAAA *)
   else if rdtype =? 105 then Some [u16; FAddr false]                                (* L32 *)
+  else if rdtype =? 51 then Some [u8; u8; u16; FHexTok]                             (* NSEC3PARAM *)
+  else if (rdtype =? 48) || (rdtype =? 60) then Some [u16; u8; FAlg; FB64Rest true] (* DNSKEY CDNSKEY *)
+  else if rdtype =? 257 then Some [u8; FTag; FQStr 0 0 false]                       (* CAA *)
   else if (rdtype =? 2) || (rdtype =? 5) || (rdtype =? 12) || (rdtype =? 39) || (rdtype =? 23)
   then Some [FName]                                        (* NS CNAME PTR DNAME NSAP-PTR *)
   else if (rdtype =? 15) || (rdtype =? 18) || (rdtype =? 21) || (rdtype =? 36) || (rdtype =? 107)
@@ -342,6 +411,9 @@ Fixpoint vals_of_obs (fs : list tfield) (os : list obs) : option (list tval) :=
           | FHexRest, B b => Some (VBytes b :: r)
           | FB64Rest _, B b => Some (VBytes b :: r)
           | FAddr _, B b => Some (VBytes b :: r)
+          | FHexTok, B b => Some (VBytes b :: r)
+          | FTag, B b => Some (VBytes b :: r)
+          | FAlg, I z => Some (VInt z :: r)
           | FName, L l => match name_of_obs l with Some n => Some (VName n :: r) | None => None end
           | FTxtRest, L l => match strings_of_obs l with Some s => Some (VStrs s :: r) | None => None end
           | _, _ => None
